@@ -85,3 +85,22 @@ Theorem C21_online_never_holds_gate : forall sched w0 w ph,
   gate w0 = false -> run online_step sched (w0, OStep) = (w, ph) -> checkpoint_refused w = false.
 Proof. exact online_never_holds_gate. Qed.
 Print Assumptions C21_online_never_holds_gate.
+
+(* producer side: however Store.Backup splits the stream into writes (copy loop, then gzip Close), a destination
+   that fails at any position before the end makes the backup an error; one with room for everything does not *)
+Theorem C21_destination_failure_is_error : forall copy_writes close_writes room,
+  backup_result copy_writes close_writes room
+  = producer_ok (total_len copy_writes + total_len close_writes) room.
+Proof. exact destination_failure_is_error. Qed.
+Print Assumptions C21_destination_failure_is_error.
+
+Theorem C21_destination_failure_never_success : forall copy_writes close_writes room,
+  (room < total_len copy_writes + total_len close_writes)%N -> backup_result copy_writes close_writes room = false.
+Proof. exact destination_failure_never_success. Qed.
+Print Assumptions C21_destination_failure_never_success.
+
+Theorem C21_close_error_dropped_refuted :
+  exists copy_writes close_writes room,
+    (room < total_len copy_writes + total_len close_writes)%N /\ write_all copy_writes room = true.
+Proof. exact close_error_dropped_refuted. Qed.
+Print Assumptions C21_close_error_dropped_refuted.
